@@ -81,6 +81,18 @@ for parser in ("html.parser", "lxml", "html5lib", "xml"):
         b = [str(x.get("id")) + "/" + x.name for x in soupsieve.select(sel, soup, namespaces=NS, custom={":--x": "p:not(:empty)"})]
         out[parser + "|ns|" + sel] = [a, b, None]
     p1 = soup.find(id="p1")
+    if parser == "xml":
+        # Beautiful Soup passes the prefixes it met while parsing as namespaces=; a document that binds a prefix the library also uses internally
+        # ("html") to some other URI must still get the same answers from both routes
+        odd = bs4.BeautifulSoup('<html xmlns="http://www.w3.org/1999/xhtml" xmlns:html="http://www.w3.org/TR/REC-html40" xmlns:svg="urn:not-svg"><body><form>'
+                                '<a id="l" href="u">x</a><input id="c" type="checkbox" checked=""/><input id="d" disabled=""/><input id="r" required=""/>'
+                                '<input id="s" type="submit"/><html:p id="hp">t</html:p><svg:g id="g"/></form></body></html>', "xml")
+        for sel in (":link", ":any-link", ":checked", ":disabled", ":enabled", ":required", ":optional", ":default", ":read-write", "html|p", "svg|g", ":root", ":dir(ltr)"):
+            a = [str(x.get("id")) + "/" + x.name for x in odd.select(sel)]
+            b = [str(x.get("id")) + "/" + x.name for x in soupsieve.select(sel, odd, namespaces=odd._namespaces)]
+            c2 = [str(x.get("id")) + "/" + x.name for x in soupsieve.select(sel, odd)] if "|" not in sel else a
+            out["odd-prefix|" + sel] = [a, b, None]
+            out["odd-prefix-vs-no-map|" + sel] = [a, c2, None]
     if p1 is not None:
         out[parser + "|api"] = [[soupsieve.match("div > p", p1), soupsieve.closest("div", p1).get("id"), [x.get("id") for x in soupsieve.filter("p", p1.parent)]],
                                 [p1.css.match("div > p"), p1.css.closest("div").get("id"), [x.get("id") for x in p1.parent.css.filter("p")]], soupsieve.escape("1 a.b")]
